@@ -242,6 +242,15 @@ Definition tx_verdict (tbl : list (key * N)) (cap : N) (l : list (ann * op)) (gb
   end.
 Definition tx_ok (tbl : list (key * N)) (cap : N) (l : list (ann * op)) (gb ga : graph) : bool :=
   tx_verdict tbl cap l gb ga =? 0.
+(* the certificate of reach_revert (proofs/SchedGraphMachine.v): the snapshot before a real revert_optional_steps is
+   coupled to a stored workflow satisfying J and has unique file ids; so is the model's result (which the revert
+   correspondence compares with the real tables) *)
+Definition revert_cert (tbl : list (key * N)) (cap : N) (gb : graph) : bool :=
+  let s := st_of_graph tbl gb cap in
+  let g' := fst (revert_optional gb) in
+  let s' := st_of_graph tbl g' cap in
+  inv_core_b s && ntc_b s && coupled_b (idf_of tbl) s gb && fwf_b gb
+  && inv_core_b s' && ntc_b s' && coupled_b (idf_of tbl) s' g'.
 """
 
 
@@ -264,6 +273,11 @@ def tx_case(ev: dict, before: dict, after: dict, ops, to_coq) -> str:
     tx = clist(f"({a}, {o})" for a, o in ops)
     cap = after["defer_cap"]
     return f"tx_ok {tbl} {cap} {tx} {to_coq(norm_root(before))} {to_coq(norm_root(after))}"
+
+
+def revert_case(before: dict, after: dict, to_coq) -> str:
+    tbl = tbl_term(key_table(before, after))
+    return f"revert_cert {tbl} {after['defer_cap']} {to_coq(norm_root(before))}"
 
 
 def tx_diag(ev: dict, before: dict, after: dict, ops, to_coq) -> list[str]:
